@@ -219,11 +219,14 @@ def _noise_worker(cfg):
             dialect = cfg['dialects'][hi % len(cfg['dialects'])]
             rng = random.Random('%s-%d-%s' % (cfg['seed_key'], hi, dialect))
             subs = histcheck.gen_subs(rng, st.views, 'all')
-            h = history.generate(rng, st.views, dialect, cfg['n_events'], weights=WEIGHTS, subscribed=set(s[0] for s in subs['methods']))
+            # a set with a property of tens of kilobytes: a short history and a few insertion points (framing does not care about volume)
+            heavy = any(p[1] >= 60000 and p[0] == 'huge' for v in st.views for p in v['clientProps'])
+            h = history.generate(rng, st.views, dialect, min(cfg['n_events'], 15) if heavy else cfg['n_events'], weights=WEIGHTS,
+                                 subscribed=set(s[0] for s in subs['methods']))
             base_packets = h.packets
             _, ref, _ = histcheck.run_history(None, st, dialect, base_packets, strict=False, subs=subs)
             variants = []
-            if cfg.get('all_positions'):
+            if cfg.get('all_positions') and not heavy:
                 for pos in range(len(base_packets) + 1):
                     variants.append(insert_noise(rng, base_packets, dialect, positions=[pos], count=1))
             else:
